@@ -263,6 +263,17 @@ def odd_corners():
     yield 'timestamp_in_sub', mk(None, specs=[MSpec(TOP, [F('f0'), F('g/f3'), ('M', 'd/Manifest', H1)]),
                                                MSpec('d/Manifest', [F('d/f1'), F('d/e/f2'),
                                                                     ('L', 'TIMESTAMP 2017-01-01T00:00:00Z')])])
+    subm = b'DATA f1 3 SHA1 fe05bcdcdc4928012781a5f1a2a77cbb5398e106\n'
+    import hashlib as _h
+    yield 'data_entry_names_valid_manifest', mk(
+        [F('f0'), F('g/f3'), F('d/e/f2'), F('dx/f5'), F('d.txt'),
+         ('L', 'DATA d/Manifest %d SHA1 %s' % (len(subm), _h.sha1(subm).hexdigest()))], raw={'d/Manifest': subm})
+    yield 'manifest_in_hidden_dir', mk(
+        flat + [('L', 'MANIFEST .h/Manifest %d SHA1 %s' % (len(subm), _h.sha1(subm).hexdigest()))],
+        raw={'.h/Manifest': subm, '.h/f1': b'one'})
+    yield 'manifest_under_ignored_dir', mk(
+        flat + [('L', 'IGNORE ig'), ('L', 'MANIFEST ig/Manifest %d SHA1 %s' % (len(subm), _h.sha1(subm).hexdigest()))],
+        raw={'ig/Manifest': subm, 'ig/f1': b'one'})
     yield 'empty_manifest', mk([])
     yield 'non_utf8_filename', mk(flat, raw={'d/bad\udcff name': b'x'})
     yield 'non_utf8_dirname', mk(flat, raw={'bad\udc80dir/x': b'x'})
